@@ -29,8 +29,11 @@ Max2(a, b) == IF a >= b THEN a ELSE b
 ToSet(s) == {s[i] : i \in 1..Len(s)}
 
 (***************************************************************************)
-(* Monitor.  An arrival event is a record                                  *)
-(*   [n, auth, echo, res, idx, seen]                                       *)
+(* Monitor.  An event is a record [k, n, auth, echo, res, idx, seen]:      *)
+(*   k     "req": a protected request with sender sequence number n       *)
+(*         arrives;  "resp": the judged context unprotects an authentic    *)
+(*         RESPONSE of the peer that carries its own Partial IV n (it      *)
+(*         answers a request this context sent: role reversal / Observe)   *)
 (*   auth  TRUE: protected by the genuine peer and unmodified              *)
 (*         FALSE: valid-looking partial IV, fails authentication           *)
 (*   res   "acc" unprotect() returned a message / "rej" it raised          *)
@@ -38,8 +41,12 @@ ToSet(s) == {s[i] : i \in 1..Len(s)}
 (*         number and set of numbers marked seen; idx = -1 when the        *)
 (*         attributes are not available, -2 while uninitialised            *)
 (***************************************************************************)
-ObsInit(w, init) ==
+ObsInit(w, init, hasEcho) ==
   [ W      |-> w,
+    hasEcho |-> hasEcho, \* Echo recovery configured (echo_recovery is not None): without it
+                         \* no value can ever be "freshly issued by this process"
+    rinit  |-> -1,       \* number of the response the window was initialised from (-1: none);
+                         \* a request carrying that very number is not judged
     init   |-> init,     \* window initialised (FALSE: state lost, Echo needed)
     acc    |-> {},       \* numbers accepted so far
     hi     |-> -1,       \* largest accepted number (-1: none)
@@ -51,13 +58,16 @@ ObsInit(w, init) ==
 
 Flag(o, cs) == [o EXCEPT !.bad = @ \cup cs]
 
+Fresh(o, e) == o.hasEcho /\ e.echo = "fresh"
+
 MustAccept(o, e) ==
-  e.auth /\ IF o.init THEN e.n \notin o.acc /\ e.n >= o.floor ELSE e.echo = "fresh"
+  e.auth /\ e.n # o.rinit
+         /\ IF o.init THEN e.n \notin o.acc /\ e.n >= o.floor ELSE Fresh(o, e)
 
 Judge(o, e) ==
   LET accd == e.res = "acc" IN
   IF accd /\ ~e.auth THEN {"C12_ForgeryNoEffect"}
-  ELSE IF accd /\ ~o.init /\ e.echo # "fresh" THEN {"C12_UninitialisedNeedsEcho"}
+  ELSE IF accd /\ ~o.init /\ ~Fresh(o, e) THEN {"C12_UninitialisedNeedsEcho"}
   ELSE IF accd /\ o.init /\ e.n \in o.acc THEN {"C12_AcceptAtMostOnce"}
   ELSE IF accd /\ o.init /\ e.n < o.floor
     THEN IF o.acc # {} /\ e.n <= o.hi - o.W
@@ -75,7 +85,31 @@ JudgeState(o, e) ==    \* a message failing authentication never marks or advanc
   IF ~e.auth /\ e.idx # -1 /\ o.pidx # -1 /\ (e.idx # o.pidx \/ e.seen # o.pseen)
     THEN {"C12_ForgeryNoEffect"} ELSE {}
 
-ObsArrive(o, e) ==
+(* A response is not subject to the replay window (RFC 8613 section 8.4) and *)
+(* must leave an initialised window as it is: otherwise numbers already      *)
+(* struck out become acceptable again (seen below as C12_AcceptAtMostOnce /  *)
+(* C12_BelowWindowRejected on later requests).  The one thing a response may *)
+(* do is to initialise an uninitialised window when Echo recovery is         *)
+(* configured (unprotect's try_initialize: it answers a request this process *)
+(* sent, so it is as fresh as an echoed value); the monitor follows the code *)
+(* there: afterwards the window is {seen: n, below: all}.                    *)
+JudgeResp(o, e) ==
+  IF o.init /\ e.idx # -1 /\ o.pidx # -1 /\ (e.idx # o.pidx \/ e.seen # o.pseen)
+    THEN {"C12_ResponseNoEffect"}
+  ELSE IF ~o.init /\ ~o.hasEcho /\ e.idx >= 0
+    THEN {"C12_UninitialisedNeedsEcho"}      \* initialised although nothing fresh can exist
+  ELSE {}
+
+ObsResp(o, e) ==
+  LET o1 == Flag(o, JudgeResp(o, e))
+      inits == ~o.init /\ o.hasEcho /\ e.res = "acc"
+  IN [o1 EXCEPT !.rinit = IF inits THEN e.n ELSE @,
+                !.init  = @ \/ inits,
+                !.floor = IF inits THEN e.n ELSE @,
+                !.pidx  = e.idx,
+                !.pseen = e.seen]
+
+ObsReq(o, e) ==
   LET accd == e.res = "acc"
       o1 == Flag(o, Judge(o, e) \cup JudgeState(o, e))
   IN [o1 EXCEPT
@@ -89,10 +123,12 @@ ObsArrive(o, e) ==
         !.pidx   = e.idx,
         !.pseen  = e.seen ]
 
+ObsArrive(o, e) == IF e.k = "resp" THEN ObsResp(o, e) ELSE ObsReq(o, e)
+
 (***************************************************************************)
 (* Implementation-shaped model                                             *)
 (***************************************************************************)
-StInit(init) == [init |-> init, index |-> 0, seen |-> {}]
+StInit(init, hasEcho) == [init |-> init, index |-> 0, seen |-> {}, echo |-> hasEcho]
 
 Valid(s, w, n) == n >= s.index /\ (n >= s.index + w \/ n \notin s.seen)     \* is_valid
 
@@ -103,18 +139,23 @@ Strike(s, w, n) ==                                                          \* s
 
 Step(s, w, n, auth, echo) ==                                                \* unprotect of a request
   IF ~s.init
-    THEN IF auth /\ echo = "fresh"                                          \* initialize_from_freshlyseen
-           THEN [res |-> "acc", st |-> [init |-> TRUE, index |-> n, seen |-> {n}]]
+    THEN IF auth /\ echo = "fresh" /\ s.echo                               \* initialize_from_freshlyseen
+           THEN [res |-> "acc", st |-> [s EXCEPT !.init = TRUE, !.index = n, !.seen = {n}]]
            ELSE [res |-> "rej", st |-> s]
     ELSE IF auth /\ Valid(s, w, n)
            THEN [res |-> "acc", st |-> Strike(s, w, n)]
            ELSE [res |-> "rej", st |-> s]
 
+StepResp(s, n) ==                                                          \* unprotect of an authentic response
+  IF ~s.init /\ s.echo
+    THEN [res |-> "acc", st |-> [s EXCEPT !.init = TRUE, !.index = n, !.seen = {n}]]
+    ELSE [res |-> "acc", st |-> s]
+
 ProjIdx(s) == IF s.init THEN s.index ELSE -2
 ProjSeen(s) == IF s.init THEN s.seen ELSE {}
 
-Event(n, auth, echo, r) ==
-  [n |-> n, auth |-> auth, echo |-> echo, res |-> r.res, idx |-> ProjIdx(r.st), seen |-> ProjSeen(r.st)]
+Event(k, n, auth, echo, r) ==
+  [k |-> k, n |-> n, auth |-> auth, echo |-> echo, res |-> r.res, idx |-> ProjIdx(r.st), seen |-> ProjSeen(r.st)]
 
 VARIABLES st,    \* model state
           obs,   \* monitor summary
@@ -124,22 +165,33 @@ VARIABLES st,    \* model state
 
 vars == <<st, obs, len, act, hist>>
 
-NoAct == [n |-> -1, auth |-> FALSE, echo |-> "none", res |-> "start", idx |-> -1, seen |-> {}]
+NoAct == [k |-> "start", n |-> -1, auth |-> FALSE, echo |-> "none", res |-> "start", idx |-> -1, seen |-> {}]
 
-Init == \E w \in Ws, i \in BOOLEAN :
-          /\ st = StInit(i) /\ obs = ObsInit(w, i) /\ len = 0 /\ act = NoAct /\ hist = << >>
+Init == \E w \in Ws, i \in BOOLEAN, h \in BOOLEAN :
+          /\ st = StInit(i, h) /\ obs = ObsInit(w, i, h) /\ len = 0 /\ act = NoAct /\ hist = << >>
 
 Arrive(n, auth, echo) ==
   /\ len < MaxLen
   /\ LET r == Step(st, obs.W, n, auth, echo)
-         e == Event(n, auth, echo, r)
+         e == Event("req", n, auth, echo, r)
      IN /\ st' = r.st
         /\ obs' = ObsArrive(obs, e)
         /\ act' = e
   /\ len' = len + 1
   /\ UNCHANGED hist
 
-Next == \E n \in 0..MaxN, auth \in BOOLEAN, echo \in Echos : Arrive(n, auth, echo)
+Resp(n) ==
+  /\ len < MaxLen
+  /\ LET r == StepResp(st, n)
+         e == Event("resp", n, TRUE, "none", r)
+     IN /\ st' = r.st
+        /\ obs' = ObsArrive(obs, e)
+        /\ act' = e
+  /\ len' = len + 1
+  /\ UNCHANGED hist
+
+Next == \/ \E n \in 0..MaxN, auth \in BOOLEAN, echo \in Echos : Arrive(n, auth, echo)
+        \/ \E n \in 0..MaxN : Resp(n)
 
 Spec == Init /\ [][Next]_vars
 
@@ -148,16 +200,21 @@ View == <<st, obs, len>>
 (* Every transition of the implementation-shaped state graph, each with a   *)
 (* shortest path from an initial state (TLC's breadth-first search keeps    *)
 (* the first representative of every view class): printed for replay.       *)
-EdgeNext == \E n \in 0..MaxN, auth \in BOOLEAN, echo \in Echos :
-  LET r == Step(st, obs.W, n, auth, echo)
-      e == Event(n, auth, echo, r)
-  IN /\ PrintT(<<"EDGE", obs.W, obs.init, hist, e>>)
-     /\ st' = r.st
-     /\ hist' = Append(hist, e)
-     /\ UNCHANGED <<obs, len, act>>
+EdgeStep(r, e) ==
+  /\ PrintT(<<"EDGE", obs.W, obs.init, obs.hasEcho, hist, e>>)
+  /\ st' = r.st
+  /\ hist' = Append(hist, e)
+  /\ UNCHANGED <<obs, len, act>>
+
+EdgeNext ==
+  \/ \E n \in 0..MaxN, auth \in BOOLEAN, echo \in Echos :
+       /\ (st.init => echo # "stale")      \* on an initialised window the Echo option is ignored anyway
+       /\ LET r == Step(st, obs.W, n, auth, echo) IN EdgeStep(r, Event("req", n, auth, echo, r))
+  \/ \E n \in 0..MaxN :
+       LET r == StepResp(st, n) IN EdgeStep(r, Event("resp", n, TRUE, "none", r))
 
 EdgeSpec == Init /\ [][EdgeNext]_vars
-EdgeView == <<st, obs.W, obs.init>>
+EdgeView == <<st, obs.W, obs.init, obs.hasEcho>>
 
 (***************************************************************************)
 (* Clauses (invariants)                                                    *)
@@ -168,6 +225,7 @@ C12_AboveAllAccepted        == "C12_AboveAllAccepted" \notin obs.bad
 C12_InWindowUnseenAccepted  == "C12_InWindowUnseenAccepted" \notin obs.bad
 C12_ForgeryNoEffect         == "C12_ForgeryNoEffect" \notin obs.bad
 C12_UninitialisedNeedsEcho  == "C12_UninitialisedNeedsEcho" \notin obs.bad
+C12_ResponseNoEffect        == "C12_ResponseNoEffect" \notin obs.bad
 NoBad == obs.bad = {}
 
 (* design-level agreement of the index/bitfield representation with `acc' *)
@@ -175,6 +233,6 @@ Agreement ==
   /\ obs.init = st.init
   /\ obs.hi = MaxOr(obs.acc, -1)
   /\ st.init => /\ st.index = obs.floor
-                /\ st.seen = {x \in obs.acc : x >= st.index}
+                /\ st.seen = {x \in obs.acc \cup (IF obs.rinit >= 0 THEN {obs.rinit} ELSE {}) : x >= st.index}
                 /\ \A x \in st.seen : x < st.index + obs.W
 =============================================================================
